@@ -170,7 +170,12 @@ def run(tier, seed, vh, only_paths=None, mode=None):
             gen_states += distinct
             counts[scen] = len(scheds)
             if limit and len(scheds) > limit:
-                scheds = rnd.sample(scheds, limit)
+                # two thirds of the sample from the schedules in which a stop discards the queued mutation that
+                # directly follows the checkpoint (labelled by the specification's history variable `dropped`)
+                tight = [x for x in scheds if x.get("dropped")]
+                rest = [x for x in scheds if not x.get("dropped")]
+                nt = min(len(tight), 2 * limit // 3)
+                scheds = rnd.sample(tight, nt) + rnd.sample(rest, min(len(rest), limit - nt))
             for i, sc in enumerate(scheds):
                 variants = ["kv"]
                 if scen in ("race", "race3"):
@@ -185,7 +190,7 @@ def run(tier, seed, vh, only_paths=None, mode=None):
                     case = to_case("%s-%d-%s" % (scen, i, v), SCENARIOS[scen], sc["prog"], sc["sched"], v)
                     # every other feed case runs with the physical clock standing still, so that consecutive
                     # mutations carry consecutive CAS values (checkpoint + 1 is then a document's CAS)
-                    if scen in ("order", "join", "resume") and i % 2 == 1:
+                    if scen in ("order", "join", "resume") and (i % 2 == 1 or sc.get("dropped")):
                         case["frozen"] = True
                     cases.append(case)
         res["gen_states"] = gen_states
